@@ -27,6 +27,9 @@ CLAIMED = {
  "C06": dict(engine="tables", design="4 C06", technique="TLA+ spec (Tables: Flatten from the statement + RIB tree/updateNexthops as coded) model-checked by TLC (refinement); RIB histories on the real table.Rib over both FIBs validated by TLC",
    text="Flatten is written from the property statement; TLC checks that the code's algorithm (subtree recomputation, capture stop, pruning) refines it for all histories up to a depth bound, and every lookup after every real register/unregister/cleanup must equal the flattening of the routes registered so far; the RIB's own listing must equal the registered routes.",
    note="Route-less prefixes are judged through lookups only (DESIGN 4.0). " + TB),
+ "C20": dict(engine="engine", design="4 C20", technique="TLA+ spec (AppEngine: pending table + name trie + timers + handlers) model-checked by TLC; traces of the real basic.Engine (dummy timer and real timer under synctest) validated by TLC",
+   text="TLC exhausts all interleavings of express/data/nack/clock/attach/detach/interest/reply up to a depth bound on the implementation-shaped trie model with the C20 rules as action properties and ExactlyOnce/AllResolved as invariants; the same rules are then checked on every step of recorded executions of the real engine, the set of callbacks fired by each arriving packet or clock advance being the owned observable.",
+   note="Names nested over /a /a/b /a/b/c /d; lifetimes 1..4 ticks of 100 ms; implicit digests over a table of 14 Data wires. " + TB),
 }
 NOT_YET = "check not yet built in this commit (work in progress; see DESIGN.md section 4)"
 NA = {}
